@@ -47,6 +47,14 @@ type Strategy struct {
 	// to completion, then everybody else. Depth-2 schedules such as "A puts an
 	// object back, B takes it and is using it, A resets it".
 	Second int `json:"second,omitempty"`
+	// Again > 0 (instead of Second): the parked task is parked TWICE. After the
+	// first park one other task runs (FirstUnits of its units, 0 = all of
+	// them), then Task executes Again more yields and is parked again, then
+	// everybody else runs to completion, then Task. "Reader loads a tag; a
+	// writer replaces the slot; reader loads the payload; another writer puts
+	// the old tag back; reader re-validates the tag" needs exactly this.
+	Again      int `json:"again,omitempty"`
+	FirstUnits int `json:"first_units,omitempty"`
 }
 
 func (s Strategy) String() string {
@@ -58,7 +66,7 @@ func (s Strategy) String() string {
 	case "rr":
 		return fmt.Sprintf("rr(q<=%d)", s.Q)
 	case "sweep":
-		return fmt.Sprintf("sweep(task=%d site=%s skip=%d second=%d)", s.Task, siteName(s.Site), s.Skip, s.Second)
+		return fmt.Sprintf("sweep(task=%d site=%s skip=%d second=%d again=%d/%d)", s.Task, siteName(s.Site), s.Skip, s.Second, s.Again, s.FirstUnits)
 	}
 	return s.Kind
 }
@@ -130,6 +138,10 @@ type Sim struct {
 	secondLeft int
 	secondTask *Task
 	secondDone bool
+	phase      int // double-park sweeps: 1 first other task runs, 2 target advances, 3 everybody else
+	firstOther *Task
+	unitsSeen  int
+	againLeft  int
 
 	monitors []func(site int)
 
@@ -285,6 +297,28 @@ func (s *Sim) decide(t *Task, site int) bool {
 	case "boundary":
 		return site == 0 && s.rng.Bool()
 	case "sweep":
+		if s.fired && s.strat.Again > 0 {
+			switch s.phase {
+			case 1:
+				if t == s.firstOther && s.strat.FirstUnits > 0 && site == 0 && !t.inUnit {
+					s.unitsSeen++
+					if s.unitsSeen > s.strat.FirstUnits {
+						s.phase = 2
+						return true
+					}
+				}
+			case 2:
+				if t.id == s.strat.Task {
+					s.againLeft--
+					if s.againLeft <= 0 {
+						s.phase = 3
+						s.probe("sweep_again_fired")
+						return true
+					}
+				}
+			}
+			return false
+		}
 		if s.fired && !s.secondDone && s.strat.Second > 0 && t.id != s.strat.Task {
 			if s.secondTask == nil {
 				s.secondTask, s.secondLeft = t, s.strat.Second
@@ -302,6 +336,7 @@ func (s *Sim) decide(t *Task, site int) bool {
 		if !s.fired && t.id == s.strat.Task && site == s.strat.Site && site > 0 {
 			if s.skipLeft <= 0 {
 				s.fired = true
+				s.phase, s.againLeft = 1, s.strat.Again
 				s.probe("sweep_fired")
 				if !spinTransport {
 					s.sitePairs[[2]int{site, -1000}] = struct{}{}
@@ -394,6 +429,31 @@ func (s *Sim) pickNext() *Task {
 				return s.tasks[tgt]
 			}
 			return live[0]
+		}
+		if s.strat.Again > 0 {
+			if s.phase == 1 {
+				if s.firstOther == nil {
+					for _, t := range live {
+						if t.id != tgt {
+							s.firstOther = t
+							break
+						}
+					}
+				}
+				if s.firstOther == nil {
+					s.phase = 3
+				} else if s.firstOther.done {
+					s.phase = 2
+				} else {
+					return s.firstOther
+				}
+			}
+			if s.phase == 2 {
+				if tgt >= 0 && tgt < len(s.tasks) && !s.tasks[tgt].done {
+					return s.tasks[tgt]
+				}
+				s.phase = 3
+			}
 		}
 		if s.strat.Second > 0 && s.secondDone && !s.tasks[tgt].done {
 			// both parked: the first one resumes and runs to completion
@@ -698,9 +758,13 @@ func resolveSweep(st *Strategy, tasks []TaskSpec, refs map[string]unitRef) {
 	}
 	st.Site = sites[r.Intn(len(sites))]
 	st.Skip = r.Intn(int(agg[st.Site]))
-	if r.Chance(0.35) {
+	switch {
+	case r.Chance(0.3):
 		// depth 2: park the next task too, after 1..~3000 of its yields (log-uniform)
 		st.Second = 1 + int(r.U64()%uint64(1<<uint(r.Range(1, 12))))
+	case r.Chance(0.25):
+		// the target is parked twice, a few yields apart
+		st.Again, st.FirstUnits = r.PickI(1, 1, 2, 3, 5), r.PickI(1, 1, 2, 0)
 	}
 	if r.Chance(0.5) {
 		st.Skip = 0 // the first visit is the one lazily initialised state depends on
